@@ -378,9 +378,10 @@ example : ¬ GroupMax [3, 1, 2] [1, 2, 1] := by
   rw [uniqueYears_ex2]
   decide +kernel
 
-/-- FULL STATEMENT (not proved here): for every `argsort` that returns a sorting permutation of the days,
+/-- FULL STATEMENT (proved in `Lemmas/GroupMax.lean`: `Lemmas.GroupMax.get_annual_cycle_of_upper_bounds_eq`, `step1_eq`; this
+    theorem is kept as the lemma they use): for every `argsort` that returns a sorting permutation of the days,
     `Gen.get_annual_cycle_of_upper_bounds … vals doy = .ok (annualCycle c vals doy)`.
-    Missing: `GroupMax (take vals p) (take doy p)` for every series whose days `take doy p` are sorted (segments between
+    Not proved in this file (`Lemmas.GroupMax.groupMax_of_sorted`): `GroupMax (take vals p) (take doy p)` for every series whose days `take doy p` are sorted (segments between
     consecutive first occurrences of a sorted list = the groups by value) — stated as the hypothesis `hg` below.
 
     **`_step1_get_annual_cycle_of_upper_bounds` (regenerated) = `Model.Isimip.annualCycle`**, partial: the sort by day of year
